@@ -94,7 +94,7 @@ theorem exec_compute (arch : Arch Rat) (ti : TInfo) (rest : Mapping Nat) (chain 
     (hwf : wfT arch ti (!chain.isEmpty) e.shape (.compute :: rest)) (hpre : Pre ti e st.written f) :
     Post arch ti (.compute :: rest) chain e st (execT arch ti (.compute :: rest) chain e st) f := by
   have hone : (elems e ti.rvs).length = 1 := by
-    rw [elems_length]; exact tileSize_one _ _ hwf
+    rw [elems_length]; exact tileSize_one _ _ hwf.1
   have hfresh := freshCount_of_pre ti e st f hpre
   rw [hone] at hfresh
   refine ⟨?_, ?_⟩
